@@ -44,7 +44,7 @@ QNAME = {
     'SOFTMAX': 'SOFTMAX', 'LOGISTIC': 'LOGISTIC', 'TANH': 'TANH', 'GELU': 'GELU',
     'ADD': 'ADD', 'SUB': 'SUB', 'MUL': 'MUL', 'MEAN': 'MEAN',
     'EMBEDDING_LOOKUP': 'EMBEDDING_LOOKUP', 'BATCH_MATMUL': 'BATCH_MATMUL',
-    'ABS': None,
+    'ABS': None, 'RNN': None,
 }
 
 SAME_SCALE = ('RESHAPE', 'TRANSPOSE', 'SPLIT', 'STRIDED_SLICE', 'AVERAGE_POOL_2D',
@@ -143,6 +143,22 @@ class _Gen:
     y = self.act(nm, sh[:-1] + [o])
     self.op('FULLY_CONNECTED', [x, w, b], [y], keep=len(sh) > 2,
             act=self.r.choice([0, 0, 1]))
+    return [y]
+
+  def mk_rnn(self, x):
+    """Builtin RNN cell: its hidden state is a VARIABLE tensor, so the interpreter carries state
+    from one invocation to the next unless it is reset. Unknown to the quantizer (left float)."""
+    b, f = self.shape(x)
+    u = self.r.choice([2, 3, 4])
+    nm = self.oname('rnn')
+    w = self.fconst(nm + '/w', (u, f))
+    rw = self.fconst(nm + '/rw', (u, u))
+    bias = self.fconst(nm + '/b', (u,))
+    self.s.tensors.append(dict(name=nm + '/state', shape=[b, u], dtype='f', data=None, idrange=None,
+                               variable=True))
+    state = len(self.s.tensors) - 1
+    y = self.act(nm, [b, u])
+    self.op('RNN', [x, w, rw, bias, state], [y])
     return [y]
 
   def mk_conv(self, x):
@@ -341,6 +357,8 @@ class _Gen:
       w = self.bias.get
       if rank >= 2:
         cands += [('fc', 3.0)]
+      if rank == 2 and self.s.tensors[x]['dtype'] == 'f':
+        cands += [('rnn', 0.35)]
       if rank == 4 and sh[1] >= 1:
         cands += [('conv', 2.0), ('dw', 1.0), ('mean', 0.7)]
         if sh[1] >= 2 and sh[2] >= 2:
@@ -371,6 +389,7 @@ class _Gen:
       weights = [wt * w(c, 1.0) for c, wt in cands]
       k = r.choices(kinds, weights)[0]
       if k == 'fc': new = self.mk_fc(x)
+      elif k == 'rnn': new = self.mk_rnn(x)
       elif k == 'conv': new = self.mk_conv(x)
       elif k == 'dw': new = self.mk_dw(x)
       elif k == 'pool': new = self.mk_pool(x)
@@ -473,6 +492,10 @@ def _opts(o):
     x = sch.ReducerOptionsT()
     x.keepDims = bool(k['keep'])
     return OPT.ReducerOptions, x
+  if t == 'RNN':
+    x = sch.RNNOptionsT()
+    x.fusedActivationFunction = sch.ActivationFunctionType.TANH
+    return OPT.RNNOptions, x
   if t == 'BATCH_MATMUL':
     x = sch.BatchMatMulOptionsT()
     x.adjX = False
@@ -490,6 +513,8 @@ def _add_subgraph(m, codes, code_idx, spec, name):
     ft.name = t['name'].encode()
     ft.shape = np.array(t['shape'], dtype=np.int32)
     ft.type = F32 if t['dtype'] == 'f' else I32
+    if t.get('variable'):
+      ft.isVariable = True
     b = sch.BufferT()
     if t['data'] is not None:
       b.data = np.frombuffer(np.ascontiguousarray(t['data']).tobytes(), dtype=np.uint8)
@@ -753,6 +778,12 @@ def gen_dataset(spec: Spec, ddesc):
         a = np.zeros(shape) if k == 0 else rng.normal(0, sc, size=shape)
       elif d == 'negative':
         a = -rng.uniform(0.01 * sc, sc, size=shape)
+      elif d == 'nonfinite':
+        a = rng.normal(0, sc, size=shape)
+        flat = a.reshape(-1)
+        flat[0] = np.nan
+        if flat.size > 1:
+          flat[-1] = np.inf if k % 2 == 0 else -np.inf
       else:
         a = np.full(shape, sc * (1 if k % 2 == 0 else -0.5))
       a = a.astype(np.float32)
